@@ -11,7 +11,9 @@ structure (`defer`, the immediately invoked closure, `range`, `if`).  From one t
 * `denote` gives the executable model — proved EQUAL to `applyCommands … true`, `cmd … true`, `check`,
   `sendReloadCmd`, `cancelReload`, `prepareDevice`, `stripReloadBanner` (`NA/Props/C15Skel.lean`), and
 * `paths` gives the set of acyclic paths of interaction steps — proved equal (as a set) to the one
-  regenerated from `device.go`.
+  regenerated from the source.  Sub-programs are used as sub-terms (not as opaque steps): a call of a
+  helper of the package contributes the helper's own paths, exactly as `translate/iosskel` inlines
+  it, so the fact is the same whether the Go code has the helper, a wrapper around it, or neither.
 
 Normal form (both sides): only device interactions, impure package functions, aborts and
 assignments to the watched variables `needReload` / `s.reloadActive` are steps; string arguments are
@@ -32,8 +34,9 @@ inductive Prog (σ : Type) : Type → Type 1 where
   | bind {α β : Type} [Inhabited α] (p : Prog σ α) (f : α → Prog σ β) : Prog σ β
   /-- `if c { t } else { e }`; `watch = some v`: the condition reads the watched variable `v` -/
   | ite {α : Type} (watch : Option String) (c : Bool) (t e : Prog σ α) : Prog σ α
-  /-- `defer tok` followed by the rest of the scope -/
-  | defer_ {α : Type} (tok : String) (d : M σ Unit) (body : Prog σ α) : Prog σ α
+  /-- `defer d` followed by the rest of the scope; the deferred call is a program of its own
+  (inlined: its steps appear as `deferred` atoms at the end of every path of the scope) -/
+  | defer_ {α : Type} (d : Prog σ Unit) (body : Prog σ α) : Prog σ α
   /-- `func() { body }()` -/
   | closure {α : Type} (body : Prog σ α) : Prog σ α
   /-- `for _, x := range … { body }` -/
@@ -60,7 +63,7 @@ def denote : {α : Type} → Prog σ α → M σ α
   | _, .quiet m => m
   | _, @Prog.bind _ _ _ _ p f => bindM (denote p) (fun a => denote (f a))
   | _, .ite _ c t e => if c then denote t else denote e
-  | _, .defer_ _ d body => finally_ (denote body) d
+  | _, .defer_ d body => finally_ (denote body) (denote d)
   | _, .closure body => denote body
   | _, @Prog.range _ _ _ l body => forEach (fun x => denote (body x)) l
   | _, .loop n body => loopM n (fun k => denote (body k))
@@ -69,6 +72,11 @@ def toAtoms : List Tok → List Atom
   | [] => []
   | .atom a :: r => a :: toAtoms r
   | .range _ :: r => .step "?nested-range" :: toAtoms r
+
+/-- a step of a deferred call -/
+def asDeferred : Tok → Tok
+  | .atom (.step s) => .atom (.deferred s)
+  | t => t
 
 def paths : {α : Type} → Prog σ α → List SkelPath
   | _, .stmt tok _ => [([.atom (.step tok)], false)]
@@ -82,7 +90,8 @@ def paths : {α : Type} → Prog σ α → List SkelPath
       | some n => [.atom (.cond n v)]
       | none => []
     (paths t).map (fun a => (mark true ++ a.1, a.2)) ++ (paths e).map (fun a => (mark false ++ a.1, a.2))
-  | _, .defer_ tok _ body => (paths body).map fun a => (a.1 ++ [.atom (.deferred tok)], a.2)
+  | _, .defer_ d body =>
+    (paths body).flatMap fun a => (paths d).map fun dp => (a.1 ++ dp.1.map asDeferred, a.2)
   | _, .closure body => paths body
   | _, @Prog.range _ _ inst _ body =>
     [([.range ((paths (body (@default _ inst))).map fun a => (toAtoms a.1, a.2))], false)]
@@ -118,9 +127,6 @@ def sendReloadCmdP (withDo : Bool) : Prog σ Unit :=
   .bind (.stmt "reloadActive:=true" (setActive true)) fun _ =>
   .stmt "SendCmd(\"\")" (sendCmd D [])
 
-def scheduleReloadP : Prog σ Unit := .stmt "sendReloadCmd(false)" (sendReloadCmd D false)
-def extendReloadP : Prog σ Unit := .stmt "sendReloadCmd(true)" (sendReloadCmd D true)
-
 /-- `cancelReload` -/
 def cancelReloadP : Prog σ Unit :=
   .bind (.stmt "IssueCmd(\"reload cancel\",\"--- SHUTDOWN ABORTED ---\")"
@@ -150,11 +156,11 @@ def stripReloadBannerP (out : Str) : Prog σ (Str × Bool) :=
 /-- the closure `check` of `cmd` (code after the repair of F-C15: the flag is accumulated) -/
 def checkP (ci : Str) : Prog σ Bool :=
   .bind (.stmt "GetOutput()" (getOutput (σ := σ))) fun out =>
-  .bind (.stmt "stripReloadBanner(_)" (stripReloadBanner (σ := σ) out)) fun p =>
+  .bind (stripReloadBannerP (σ := σ) out) fun p =>
   .bind (.stmt "needReload|=_" (pureM (σ := σ) ())) fun _ =>
   .bind (.stmt "StripEcho(_,_)" (stripEcho (σ := σ) ci p.1)) fun o =>
   .bind (.ite none (!o.isEmpty)
-          (.bind (.stmt "isValidOutput(_,_)" (forEach (warn (σ := σ) ci) (validOutput (splitOnNL o)).1)) fun _ =>
+          (.bind (.stmt "loop{|Warning()}" (forEach (warn (σ := σ) ci) (validOutput (splitOnNL o)).1)) fun _ =>
            .ite none (!(validOutput (splitOnNL o)).2)
              (.abort "Abort()" (abortM (.unexpectedOutput ci o)))
              (.quiet (pureM ())))
@@ -165,23 +171,13 @@ def checkP (ci : Str) : Prog σ Bool :=
 def cmdP (c : Str) : Prog σ Unit :=
   .bind (.stmt "Send(_)" (send D c)) fun _ =>
   .bind (.stmt "needReload:=false" (pureM (σ := σ) ())) fun _ =>
-  .bind (.stmt "check(_)" (Prog.denote (checkP (σ := σ) (cutNL c).1))) fun n1 =>
+  .bind (checkP (σ := σ) (cutNL c).1) fun n1 =>
   .bind (.ite none (!(cutNL c).2.isEmpty)
-          (.bind (.stmt "check(_)" (Prog.denote (checkP (σ := σ) (cutNL c).2))) fun n2 => .quiet (pureM (n1 || n2)))
+          (.bind (checkP (σ := σ) (cutNL c).2) fun n2 => .quiet (pureM (n1 || n2)))
           (.quiet (pureM n1))) fun need =>
-  .ite (some "needReload") need (.stmt "extendReload()" (extendReload D)) (.quiet (pureM ()))
-
-/-- `ApplyCommands` -/
-def applyCommandsP (cs : List Str) : Prog σ Unit :=
-  .bind (.stmt "SetLogFH(_)" (pureM (σ := σ) ())) fun _ =>
-  .bind (.stmt "prepareDevice()" (prepareDevice D)) fun _ =>
-  .bind (.closure
-          (.bind (.stmt "scheduleReload()" (scheduleReload D)) fun _ =>
-           .defer_ "cancelReload()" (cancelReload D)
-            (.bind (.stmt "SendCmd(\"configure terminal\")" (sendCmd D confCmd)) fun _ =>
-             .defer_ "SendCmd(\"end\")" (sendCmd D endCmd)
-              (.range cs fun chg => .stmt "cmd(_)" (cmd D true chg))))) fun _ =>
-  .stmt "writeMem()" (writeMem D 2)
+  .ite (some "needReload") need
+    (.bind (.stmt "args(true)" (pureM (σ := σ) ())) fun _ => sendReloadCmdP D true)
+    (.quiet (pureM ()))
 
 end programs
 
@@ -208,6 +204,21 @@ def writeMemRoundP (k : Nat) : Prog σ WmStep :=
 
 /-- `writeMem`: `retries := 2; for { … }` -/
 def writeMemP : Prog σ Unit := .loop 2 (writeMemRoundP D)
+
+/-- `ApplyCommands`, every helper of the package inlined (`prepareDevice`, `scheduleReload` →
+`sendReloadCmd(false)`, `cancelReload`, `cmd` → `check` → `stripReloadBanner`, `extendReload` →
+`sendReloadCmd(true)`, `writeMem`): the path set does not depend on how the Go code is cut into helpers -/
+def applyCommandsP (cs : List Str) : Prog σ Unit :=
+  .bind (.stmt "SetLogFH(_)" (pureM (σ := σ) ())) fun _ =>
+  .bind (prepareDeviceP D) fun _ =>
+  .bind (.closure
+          (.bind (.stmt "args(false)" (pureM (σ := σ) ())) fun _ =>
+           .bind (sendReloadCmdP D false) fun _ =>
+           .defer_ (cancelReloadP D)
+            (.bind (.stmt "SendCmd(\"configure terminal\")" (sendCmd D confCmd)) fun _ =>
+             .defer_ (.stmt "SendCmd(\"end\")" (sendCmd D endCmd))
+              (.range cs fun chg => cmdP D chg)))) fun _ =>
+  writeMemP D
 
 end writeMemProg
 
